@@ -39,6 +39,10 @@ CompanionVerdict(e) ==
     ELSE IF e.eq_a = "raised" \/ e.eq_b = "raised" THEN (IF CS!InScope(e.a.scn) THEN "Inv_C09_raised:ab" ELSE "ok")
     ELSE Side("ab", CS!DedupVerdict(e.a.scn, e.eq_a = "true", e.eq_b = "true"))
 
+(* mxinfo = what the driver read off the REAL registered demultiplexing strategy named by the MX tag: does it remove the *)
+(* ligated T (sequenceCapture[0].start = barcodeLength + umiLength + 1)? The scenario's layout must be that ground truth *)
+LayoutOk(x) == (x.scn.proto = "chic" /\ Has(x, "mxinfo") /\ x.mxinfo.registered) => (x.mxinfo.demux_trims = (x.scn.kind = "trimmed"))
+
 Verdict(e) ==
     IF e.ev = "degenerate" THEN "ok"        \* R1 missing / unmapped / flagged qcfail on input: outside the statement (DegNote)
     ELSE IF e.ev # "pair" THEN "unknown_event"
@@ -46,6 +50,7 @@ Verdict(e) ==
     IF ~CS!WellFormed(sa) THEN "generator_mismatch_scenario"
     ELSE IF sb # CS!MirrorScn(sa) THEN "generator_mismatch_mirror"
     ELSE IF ~SameRead(e.a.read, CS!DeriveRead(sa)) \/ ~SameRead(e.b.read, CS!DeriveRead(sb)) THEN "generator_mismatch_read"
+    ELSE IF ~LayoutOk(e.a) \/ ~LayoutOk(e.b) THEN "generator_mismatch_layout"
     ELSE IF CS!InScope(sa) /\ e.a.out.raised # "" THEN "Inv_C09_raised:a"
     ELSE IF CS!InScope(sb) /\ e.b.out.raised # "" THEN "Inv_C09_raised:b"
     ELSE IF e.a.out.raised # "" \/ e.b.out.raised # "" THEN "ok"
@@ -60,7 +65,12 @@ RzNote(e) == LET x == IF e.a.out.has_ds /\ e.a.scn.proto = "nla" /\ e.a.scn.kind
 
 (* degenerate inputs: the statement does not say what happens; a site tag on them is reported as a NOTE *)
 DegNote(e) == IF e.ev = "degenerate" /\ (e.out.has_ds \/ e.out.valid) THEN Note(l, e.tid, "degenerate_" \o e.what \o "_" \o e.proto \o (IF e.out.has_ds THEN "_has_site_tag" ELSE "") \o (IF e.out.valid THEN "_valid" ELSE "")) ELSE TRUE
-RzNote2(e) == IF e.ev = "pair" THEN RzNote(e) ELSE TRUE
+(* a strategy whose real layout contradicts the MX naming rule of the fragment class: report when the site is then off *)
+LayoutNote(e) == IF e.ev = "pair" /\ e.a.scn.proto = "chic" /\ ~CS!LayoutRuleAgrees(e.a.scn) /\ e.a.out.has_ds /\ ~e.a.scn.opts.no_cigar
+                    /\ e.a.out.ds \notin CS!OkSites(e.a.scn)
+                 THEN Note(l, e.tid, "mx_rule_disagrees_with_demux_layout_site_off_by_" \o ToString(e.a.out.ds - CS!TrueSite(e.a.scn)))
+                 ELSE TRUE
+RzNote2(e) == IF e.ev = "pair" THEN RzNote(e) /\ LayoutNote(e) ELSE TRUE
 TInit == l = 1
 (* events with "prepass":"other_options" re-tag reads that an earlier pass with OTHER options had tagged: outside the    *)
 (* quantifier (fresh simulated fragments); what the property's clauses would say is reported as a NOTE, never a reject *)
